@@ -128,6 +128,43 @@ def is_max_fold(t, value_attr, init=0):
     return False
 
 
+def drop_placeholders(term):
+    """[p for p in PER_ROW if p is not None] where PER_ROW extends, row by row, `chosen if chosen else [None]`:
+    the placeholders vanish and what remains is the flat selection  [p for row in rows for p in chosen(row)]."""
+    if not (term[0] == 'comp' and len(term[1]) == 1):
+        return term
+    b, g = term[1][0]
+    if term[2] != b or g not in notnone_forms(b):
+        return term
+    d = b[3]
+    if not (d[0] == 'accum' and d[1] == ('list', ()) and len(d[2]) == 1 and d[2][0][0] == 'extend'):
+        return term
+    op, _, L, ch = d[2][0]
+    if L[0] == 'ite' and L[3] == ('list', (NONE,)) and L[2][0] == 'comp' and L[1] in (L[2], CMP('Gt', CALL(S('len'), [L[2]]), C(0)), CMP('NotEq', L[2], ('list', ()))):
+        X = L[2]
+    elif L[0] == 'ite' and L[2] == ('list', (NONE,)) and L[3][0] == 'comp' and L[1] in (NOT(L[3]), CMP('Eq', CALL(S('len'), [L[3]]), C(0)), CMP('Eq', L[3], ('list', ()))):
+        X = L[3]
+    elif L[0] == 'bool' and L[1] == 'or' and len(L[2]) == 2 and L[2][1] == ('list', (NONE,)) and L[2][0][0] == 'comp':
+        X = L[2][0]                       # chosen or [None]
+    else:
+        return term
+    if contains(X[2], lambda x: x == NONE):
+        return term
+    return ('comp', tuple(ch) + tuple(X[1]), X[2])
+
+
+def placeholder_extend(d):
+    """ACCUM([]; extend (chosen(row) if chosen(row) else [None]) {for row in rows}) -> (row chain, chosen comp) or None"""
+    if not (d[0] == 'accum' and d[1] == ('list', ()) and len(d[2]) == 1 and d[2][0][0] == 'extend'):
+        return None
+    probe = ('bvar', -1, 'probe', d)
+    r = drop_placeholders(('comp', ((probe, CMP('IsNot', probe, NONE)),), probe))
+    if r[0] == 'comp' and r[1] and r[1][0][0] != probe:
+        k = len(d[2][0][3])
+        return r[1][:k], ('comp', r[1][k:], r[2])
+    return None
+
+
 def selection(term):
     """list-valued term that selects pairs from ALL pairs: -> (pair binder, guard) or None.
     Accepts [] ++ [pair for row in pairs for pair in row if g]."""
@@ -138,6 +175,7 @@ def selection(term):
         term = parts[0]
     if term[0] != 'comp':
         return None
+    term = drop_placeholders(term)
     ap = all_pairs_chain(term[1])
     if ap is None:
         return None
